@@ -1,5 +1,6 @@
 import EaselModel.Stats.HistExpect
 import EaselModel.Stats.HistMass
+import EaselModel.Stats.HistExpectLemmas
 /-! # The tables `esl_histogram_Plot` / `esl_histogram_PlotSurvival` print account for the data (C11, over ℚ) -/
 namespace EaselModel.Stats
 
@@ -144,5 +145,45 @@ theorem declareRounding_accounts (h : Hist ℚ) (vs : List ℚ) (acc : Accounts 
   exact { wf := ⟨acc.wf.size, acc.wf.nb_pos, acc.wf.nb_le, acc.wf.alloc, acc.wf.xsize⟩, idx := acc.idx, wpos := acc.wpos, counts := acc.counts,
           n := acc.n, tot := acc.tot, below := acc.below, above := acc.above, occ := acc.occ, sent := acc.sent, xlo := acc.xlo, xmem := acc.xmem,
           xempty := acc.xempty, fin := acc.fin, raw := acc.raw }
+
+/-! ## the range `esl_histogram_Goodness` evaluates -/
+
+theorem goodnessCount_eq (obs : Array Nat) : ∀ (k : Nat) (b : Int) (acc : Nat), 0 ≤ b → b + k ≤ obs.size →
+    goodnessCount obs k b acc = .val (acc + binSum obs b k) := by
+  intro k
+  induction k with
+  | zero => intro b acc _ _; simp [goodnessCount, binSum]
+  | succ k ih =>
+    intro b acc h0 h1
+    unfold goodnessCount binSum
+    rw [getObs_val obs b h0 (by omega)]
+    simp only []
+    rw [ih (b + 1) (acc + obsAt obs b) (by omega) (by push_cast at h1 ⊢; omega)]
+    congr 1; omega
+
+/-- **what `esl_histogram_Goodness` evaluates, in terms of the raw data** (ℚ): the `nobs` of its first loop — and hence, by
+    `goodness_accounts`, the total of its re-bins — is the number of accepted values above the lower bound of the first evaluated bin. -/
+theorem goodnessCount_raw (h : Hist ℚ) (vs : List ℚ) (acc : Accounts h vs) (b : Int) (hb0 : 0 ≤ b) (hb1 : b ≤ h.imax + 1) :
+    goodnessCount h.obs (h.imax + 1 - b).toNat b 0 = .val (vs.countP (fun x => decide (h.bmin + b * h.w < x))) := by
+  have hsz := acc.wf.size
+  have himax : h.imax < h.nb := by
+    rcases idx_state h vs acc with ⟨_, _, i2⟩ | ⟨_, _, _, i3⟩
+    · have := acc.wf.nb_pos; omega
+    · exact i3
+  rw [goodnessCount_eq h.obs _ b 0 hb0 (by omega), Nat.zero_add, binSum_counts h vs acc]
+  congr 1
+  apply List.countP_congr
+  intro x hx
+  simp only [decide_eq_true_eq]
+  constructor
+  · intro hh; exact hh.1
+  · intro hh
+    refine ⟨hh, ?_⟩
+    obtain ⟨_, hub⟩ := value_range h vs acc x hx
+    have e : (((h.imax + 1 - b).toNat : Nat) : ℚ) = ((h.imax + 1 - b : Int) : ℚ) := by
+      rw [← Int.cast_natCast]; congr 1; omega
+    rw [e]; push_cast
+    have : (b : ℚ) + ((h.imax : ℚ) + 1 - (b : ℚ)) = (h.imax : ℚ) + 1 := by ring
+    rw [this]; exact hub
 
 end EaselModel.Stats
